@@ -109,6 +109,11 @@ def q_grammar(side: str) -> Grammar:
     if side == "duckdb":
         q += [
             A("qualify", 1, "SELECT a AS c1, b AS c2 FROM t QUALIFY ROW_NUMBER() OVER (PARTITION BY a ORDER BY b, s, ts) = 1{order}"),
+            # QUALIFY over two window functions / a window that is also projected / a window next to a plain predicate
+            A("qualify2", 1, "SELECT a AS c1, b AS c2 FROM t QUALIFY ROW_NUMBER() OVER (PARTITION BY a ORDER BY b, s, ts) = 1 AND RANK() OVER (ORDER BY a) <= 2{order}"),
+            A("qualify2_or", 1, "SELECT a AS c1, b AS c2 FROM t QUALIFY ROW_NUMBER() OVER (PARTITION BY a ORDER BY b, s, ts) = 1 OR COUNT(*) OVER (PARTITION BY b) > 1{order}"),
+            A("qualify_projected", 1, "SELECT a AS c1, ROW_NUMBER() OVER (PARTITION BY a ORDER BY b, s, ts) AS c2 FROM t QUALIFY c2 = 1 AND SUM(b) OVER (PARTITION BY a) > 0{order}"),
+            A("qualify_and_plain", 1, "SELECT a AS c1, b AS c2 FROM t WHERE {c} QUALIFY ROW_NUMBER() OVER (PARTITION BY a ORDER BY b, s, ts) <= 2 AND b > 0{order}"),
             A("distinct_on", 1, "SELECT DISTINCT ON (a) a AS c1, b AS c2 FROM t ORDER BY a, b, s, ts"),
             A("semi", 1, "SELECT t.a AS c1, t.b AS c2 FROM t SEMI JOIN u ON {on}{order}"),
             A("anti", 1, "SELECT t.a AS c1, t.b AS c2 FROM t ANTI JOIN u ON {on}{order}"),
